@@ -213,7 +213,7 @@ theorem dirLeafX : LeafX DirInv where
   setClosed := by unfold setClosed; view_same
   setStopping := by unfold setStopping; view_same
   setRestarting := by unfold setRestarting; view_same
-  clearRestarting := by unfold clearRestarting; view_same
+  clearRestarting := fun b => by unfold clearRestarting; view_same
   setLoopStop := fun b => by unfold setLoopStop; view_same
   setSocketEvent := fun b => by unfold setSocketEvent; view_same
   setSockReady := fun b => by unfold setSockReady; view_same
